@@ -144,12 +144,33 @@ fn partition(seed: u64, style: i64, stereo: bool) -> impl FnMut() -> usize {
     }
 }
 
+/// register data of the scenario: the "frames"/"payload" blob, or (logs of more than 65535 frames, kept out of
+/// the scenario for their size) `long` frames derived from `lseed`
+fn data_of(sc: &Scenario, key: &str) -> Vec<u8> {
+    let long = sc.get("long").clamp(0, 200_000) as usize;
+    if long > 0 {
+        let mut r = Rng::new(sc.get("lseed") as u64 ^ 0x10C6);
+        let mut v = r.bytes(long * 14);
+        if key == "frames" {
+            for f in 0..long {
+                if v[f * 14 + 13] & 3 == 0 {
+                    v[f * 14 + 13] = 0xFF;
+                }
+            }
+        }
+        return v;
+    }
+    sc.ops.iter().find(|o| o.k == key).map(|o| o.b.clone()).unwrap_or_default()
+}
+
+const LONG_FRAMES: [i64; 10] = [65535, 65536, 65537, 65600, 74898, 74899, 80000, 70001, 131073, 65536];
+
 impl C20 {
     /// kind 3: play() calls interleaved with rewind / rewind_loop / set_frame on the recording backend,
     /// against a reference position model. A position command may (the implementation does) write
     /// R13 := 0 to reset the envelope; that write is accepted but not required.
     fn seek_check(&self, sc: &Scenario, ctx: &mut RunCtx) -> Result<(), Fail> {
-        let data = sc.ops.iter().find(|o| o.k == "frames").map(|o| o.b.clone()).unwrap_or_default();
+        let data = data_of(sc, "frames");
         let frames = data.len() / 14;
         if frames == 0 {
             return Ok(());
@@ -300,6 +321,29 @@ impl Property for C20 {
         if kind == 3 {
             // position commands (rewind, rewind_loop, set_frame) between play() calls: playback stays
             // frame-accurate relative to the new position
+            if rng.chance(1, 12) {
+                // a log of more than 65535 frames: positions beyond the 16-bit range
+                let frames = *rng.pick(&LONG_FRAMES);
+                sc.set("long", frames);
+                sc.set("lseed", (rng.next() >> 8) as i64);
+                sc.set("rate", 8000);
+                sc.set("pf", *rng.pick(&[255i64, 200, 250]));
+                sc.set("stereo_out", rng.bool() as i64);
+                sc.set("layout", rng.range(0, 6));
+                sc.set("loop", rng.range(0, 65535));
+                let spf = 8000 / sc.get("pf");
+                for _ in 0..rng.range(3, 9) {
+                    match rng.below(5) {
+                        0 => sc.op("rewind_loop", &[]),
+                        1 | 2 => {
+                            let any = rng.range(0, frames);
+                            sc.op("set_frame", &[*rng.pick(&[65534i64, 65535, 65536, 65537, frames - 1, frames - 2, frames, 70000.min(frames - 1), any])])
+                        }
+                        _ => sc.op("play", &[spf * rng.range(1, 6) + rng.range(0, 3)]),
+                    }
+                }
+                return sc;
+            }
             let frames = rng.range(1, 40);
             sc.push(Op::blob("frames", &[], rng.bytes(frames as usize * 14)));
             sc.set("rate", *rng.pick(&[8000i64, 11025, 44100, 48000]));
@@ -328,6 +372,15 @@ impl Property for C20 {
         }
         if kind == 2 {
             sc.set("repo", (idx % 40 == 8) as i64 * (1 + (idx / 40 % 4) as i64));
+            if rng.chance(1, 16) && idx % 40 != 8 {
+                sc.set("long", *rng.pick(&LONG_FRAMES));
+                sc.set("lseed", (rng.next() >> 8) as i64);
+                sc.set("stereo", rng.range(0, 6));
+                sc.set("ym", rng.bool() as i64);
+                sc.set("pf", rng.range(1, 255));
+                sc.set("strlen", *rng.pick(&[0i64, 10, 255]));
+                return sc;
+            }
             let frames = rng.range(0, 300);
             let mut t = rng.bytes(frames as usize * 14);
             if rng.bool() {
@@ -340,6 +393,20 @@ impl Property for C20 {
             sc.set("ym", rng.bool() as i64);
             sc.set("pf", rng.range(1, 255));
             sc.set("strlen", *rng.pick(&[0i64, 1, 10, 250, 251, 255, 256, 257, 600]));
+            return sc;
+        }
+        if kind == 0 && rng.chance(1, 24) {
+            // plain playback through the 65536th frame
+            sc.set("long", *rng.pick(&[65535i64, 65536, 65537, 65600, 66000]));
+            sc.set("lseed", (rng.next() >> 8) as i64);
+            sc.set("rate", 8000);
+            sc.set("pf", *rng.pick(&[255i64, 250, 200]));
+            sc.set("stereo_out", rng.bool() as i64);
+            sc.set("layout", rng.range(0, 6));
+            sc.set("ym", rng.bool() as i64);
+            sc.set("style", *rng.pick(&[2i64, 3, 4, 5, 6]));
+            sc.set("pseed", (rng.next() >> 8) as i64);
+            sc.set("ty", 0);
             return sc;
         }
         let frames = match rng.below(6) {
@@ -386,7 +453,7 @@ impl Property for C20 {
             3 => return self.seek_check(sc, ctx),
             _ => {}
         }
-        let data = sc.ops.iter().find(|o| o.k == "frames").map(|o| o.b.clone()).unwrap_or_default();
+        let data = data_of(sc, "frames");
         let frames = data.len() / 14;
         let data = &data[..frames * 14];
         let rate = sc.get("rate").clamp(8000, 384000) as usize;
@@ -639,7 +706,7 @@ impl C20 {
             return Ok(());
         }
         ctx.probe("load_generated");
-        let t = sc.ops.iter().find(|o| o.k == "payload").map(|o| o.b.clone()).unwrap_or_default();
+        let t = data_of(sc, "payload");
         let frames = t.len() / 14;
         let t = &t[..frames * 14];
         let strlen = sc.get("strlen").clamp(0, 2000) as usize;
